@@ -285,10 +285,21 @@ func abstractSig(in *interner, sig []byte, keys []keypair.PublicKey, msgs []comm
 	}
 	for _, m := range msgs {
 		for _, k := range keys {
-			if osig.Verify(k, m[:], s) {
+			if safeVerify(k, m[:], s) {
 				return fmt.Sprintf("(SigOk %d %d)", in.key(k), in.hash(m))
 			}
 		}
 	}
 	return "(SigOk 0 0)"
+}
+
+// safeVerify: the crypto library's Verify; a panic inside the library counts as "does not verify"
+// (as core/signature.verify treats it).
+func safeVerify(k keypair.PublicKey, data []byte, s *osig.Signature) (ok bool) {
+	defer func() {
+		if r := recover(); r != nil {
+			ok = false
+		}
+	}()
+	return osig.Verify(k, data, s)
 }
